@@ -369,6 +369,7 @@ fn check_nb(case: &NbCase, ctx: &mut Ctx) -> Result<(), Fail> {
 pub fn property() -> Property {
     Property {
         id: "C11",
+        quick_mult: 80,
         rule: "training sets of 2..80 (quick) / 120 (thorough) rows, 1..8 features, 2..5 classes with skewed frequencies and arbitrary integer label values (negative, gaps; categorical: 0..max with possibly empty classes); real features with positive per-class variance by construction (Gaussian; a low-weight degenerate class of cases keeps zero variances), counts 0..20 (multinomial), 0/1 or thresholded reals (Bernoulli), codes 0..5 (categorical); alpha in 0.05..5; optional normalised user priors; queries = all training rows + rows recombined feature-wise from training values + a perturbed row. non-trivial = >= 3 classes with unequal counts; distinct = distinct serialised case",
         assumptions: vec![
             "Gaussian predict on a class with zero variance in some feature is outside the domain (0/0 likelihood); such cases only have their statistics checked".into(),
